@@ -170,6 +170,7 @@ func UserHash(tag string) util.Uint160 {
 
 // AddBlock adds a block with the given transactions; timestamp = previous + Step.
 func (c *Chain) AddBlock(txs ...*transaction.Transaction) *block.Block {
+	c.coverBlockTxs(c.E.TopBlock(c.T).Timestamp+c.Step, txs)
 	b := c.E.NewUnsignedBlock(c.T, txs...)
 	b.Timestamp = c.E.TopBlock(c.T).Timestamp + c.Step
 	c.E.SignBlock(b)
@@ -179,6 +180,7 @@ func (c *Chain) AddBlock(txs ...*transaction.Transaction) *block.Block {
 
 // AddBlockAt adds an empty block whose timestamp is ts (must exceed the previous one).
 func (c *Chain) AddBlockAt(ts uint64, txs ...*transaction.Transaction) *block.Block {
+	c.coverBlockTxs(ts, txs)
 	b := c.E.NewUnsignedBlock(c.T, txs...)
 	b.Timestamp = ts
 	c.E.SignBlock(b)
@@ -200,6 +202,7 @@ func (c *Chain) Compile(name string) *neotest.Contract {
 func (c *Chain) rehash(ct *neotest.Contract) *neotest.Contract {
 	cp := *ct
 	cp.Hash = state.CreateContractHash(c.Cmt.ScriptHash(), ct.NEF.Checksum, ct.Manifest.Name)
+	coverTrack(ct.Manifest.Name, &cp)
 	return &cp
 }
 
@@ -341,7 +344,7 @@ func (c *Chain) Call(h util.Uint160, method string, args ...any) ([]stackitem.It
 func (c *Chain) CallAs(signers []neotest.Signer, h util.Uint160, method string, args ...any) ([]stackitem.Item, error) {
 	tx := c.NewTx(signers, h, method, args...)
 	tx.ValidUntilBlock = c.BC.BlockHeight() + 2
-	v, err := c.E.TestInvoke(tx)
+	v, err := c.TestInvoke(tx)
 	if err != nil {
 		return nil, err
 	}
